@@ -33,6 +33,8 @@ CFG = {
     'trA': [1, 3, 4, 7, 9],               # trap pair: union [1,3,4,7,9,11] has as many entries as range(1,12,2)
     'trB': [1, 3, 7, 9, 11],              # but is not that range; intersection [1,3,7,9] ~ range(1,10,2)+1
     'big': list(range(1000, 1040, 4)),    # large numbers, stride 4
+    'c20': list(range(1, 21)),            # longer contiguous chain
+    'st3': list(range(4, 21, 3)),         # coarser range inside c20 whose size does not tile it (20/6 != 3)
 }
 
 
@@ -68,6 +70,8 @@ LAYOUTS_QUICK = [
     {'A1|r1': 'c8'},
     {'A|r1': 'trA'},
     {'A|r1': 'trB'},
+    {'A|r1': 'c20'},
+    {'A|r1': 'st3'},
 ]
 LAYOUTS_MORE = [
     {'A|r1': 's3'},
